@@ -167,6 +167,7 @@ func Fold
   property C14
   ensures[fold] ident(result, foldl(acc, seed, slice, len(slice)))
   loop 0 use foldl_zero(acc, param(seed), slice)
+  use foldl_zero(acc, seed, slice)
   loop 0 use foldl_step(acc, param(seed), slice, rangeindex + 1)
   loop 0 invariant -1 <= rangeindex && rangeindex < len(slice) && ident(state, foldl(acc, param(seed), slice, rangeindex + 1))
 
@@ -174,6 +175,7 @@ func FoldReverse
   property C14
   ensures[fold] ident(result, foldr(acc, seed, slice, len(slice)))
   loop 0 use foldr_zero(acc, param(seed), slice)
+  use foldr_zero(acc, seed, slice)
   loop 0 use foldr_step(acc, param(seed), slice, len(slice) - 1 - i)
   loop 0 invariant -1 <= i && i < len(slice) && ident(state, foldr(acc, param(seed), slice, len(slice) - 1 - i))
   loop 0 decreases i + 1
@@ -206,6 +208,7 @@ func Filter
   ensures[elems] forall j :: 0 <= j && j < len(result) ==> result[j] == fat(match, slice, len(slice), j)
   ensures[fresh] fresh(result)
   loop 0 use flen_zero(match, slice)
+  use flen_zero(match, slice)
   loop 0 use flen_step(match, slice, rangeindex + 1)
   loop 0 use forall j :: {fat(match, slice, rangeindex + 2, j)} fat_step(match, slice, rangeindex + 1, j)
   loop 0 invariant -1 <= rangeindex && rangeindex < len(slice) && fresh(result)
@@ -336,6 +339,7 @@ func Distinct
   ensures[elems] forall j :: 0 <= j && j < len(result) ==> result[j] == dat(slice, len(slice), j)
   ensures[fresh] fresh(result)
   loop 0 use dlen_zero(slice)
+  use dlen_zero(slice)
   loop 0 use dlen_step(slice, rangeindex + 1)
   loop 0 use forall j :: {dat(slice, rangeindex + 2, j)} dat_step(slice, rangeindex + 1, j)
   loop 0 invariant -1 <= rangeindex && rangeindex < len(slice) && fresh(result)
@@ -358,6 +362,7 @@ func DistinctFunc
   ensures[elems] forall j :: 0 <= j && j < len(result) ==> result[j] == dfat(equals, slice, len(slice), j)
   ensures[fresh] fresh(result)
   loop 0 use dflen_zero(equals, slice)
+  use dflen_zero(equals, slice)
   loop 0 use dflen_step(equals, slice, rangeindex + 1)
   loop 0 use forall j :: {dfat(equals, slice, rangeindex + 2, j)} dfat_step(equals, slice, rangeindex + 1, j)
   loop 0 invariant -1 <= rangeindex && rangeindex < len(slice) && fresh(result)
@@ -381,9 +386,11 @@ func CountBy
   ensures[groups] forall i :: 0 <= i && i < len(result) ==> result[i].Key == kat(keyer, slice, len(slice), i) && result[i].Count == kcnt(keyer, slice, len(slice), result[i].Key)
   ensures[fresh]  fresh(result)
   loop 0 use klen_zero(keyer, slice)
+  use klen_zero(keyer, slice)
   loop 0 use klen_step(keyer, slice, rangeindex + 1)
   loop 0 use forall j :: {kat(keyer, slice, rangeindex + 2, j)} kat_step(keyer, slice, rangeindex + 1, j)
   loop 0 use forall key K :: {kcnt(keyer, slice, 0, key)} kcnt_zero(keyer, slice, key)
+  use forall key K :: {kcnt(keyer, slice, 0, key)} kcnt_zero(keyer, slice, key)
   loop 0 use forall key K :: {kcnt(keyer, slice, rangeindex + 2, key)} kcnt_step(keyer, slice, rangeindex + 1, key)
   loop 0 invariant -1 <= rangeindex && rangeindex < len(slice)
   loop 0 invariant[a] m != nil
@@ -409,9 +416,11 @@ func GroupBy
   ensures[members] forall i, j :: {mark(i), mark(j)} mark(i) && mark(j) && 0 <= i && i < len(result) && 0 <= j && j < len(result[i].Values) ==> result[i].Values[j] == gat(keyer, slice, len(slice), result[i].Key, j)
   ensures[fresh]   fresh(result) && (forall i :: 0 <= i && i < len(result) ==> fresh(result[i].Values))
   loop 0 use klen_zero(keyer, slice)
+  use klen_zero(keyer, slice)
   loop 0 use klen_step(keyer, slice, rangeindex + 1)
   loop 0 use forall j :: {kat(keyer, slice, rangeindex + 2, j)} kat_step(keyer, slice, rangeindex + 1, j)
   loop 0 use forall key K :: {kcnt(keyer, slice, 0, key)} kcnt_zero(keyer, slice, key)
+  use forall key K :: {kcnt(keyer, slice, 0, key)} kcnt_zero(keyer, slice, key)
   loop 0 use forall key K :: {kcnt(keyer, slice, rangeindex + 2, key)} kcnt_step(keyer, slice, rangeindex + 1, key)
   loop 0 use forall key K, j int :: {gat(keyer, slice, rangeindex + 2, key, j)} gat_step(keyer, slice, rangeindex + 1, key, j)
   loop 0 invariant -1 <= rangeindex && rangeindex < len(slice) && m != nil && fresh(m) && (orderedKeys == nil || fresh(orderedKeys))
@@ -646,6 +655,7 @@ func ExceptSet
   ensures[elems] forall j :: 0 <= j && j < len(result) ==> result[j] == xat(memrow(exclude), slice, len(slice), j)
   ensures[fresh] fresh(result)
   loop 0 use xlen_zero(memrow(exclude), slice)
+  use xlen_zero(memrow(exclude), slice)
   loop 0 use xlen_step(memrow(exclude), slice, rangeindex + 1)
   loop 0 use forall j :: {xat(memrow(exclude), slice, rangeindex + 2, j)} xat_step(memrow(exclude), slice, rangeindex + 1, j)
   loop 0 invariant -1 <= rangeindex && rangeindex < len(slice) && fresh(result)
